@@ -22,6 +22,9 @@ META = {
               'advances the cursor by one; the decision depends on the examined vertex and the new plane only, never on the cursor or on the counters',
         'R4': 'no state leaks from one clip into the next: SimpleCycle::init walks exactly `len` nodes from `start` along the successor table, resets each visited node to '
               '"not on the cycle" after reading its successor, and only then installs the new triangle; grow() appends a node that is not on the cycle',
+        'R6': 'no fixed capacity: the cycle bookkeeping and the clip routine hold one entry per clipping plane / vertex in growable storage — no shift by a run-time index '
+              '(a membership bit mask in a machine word aliases plane i with plane i - 64: a cell with more than 58 neighbours gets another polytope, or none) and no fixed-size '
+              'array indexed by a plane or vertex number',
         'R5': 'the new vertices are a function of the cycle only: one vertex per consecutive pair (cur, next) of the closed walk (len + 1 items from start), built from '
               '(cur, next, index of the plane just pushed) — three planes per vertex — and appended after the removed vertices were truncated away',
     },
@@ -43,7 +46,7 @@ def run(ctx):
     for cfg in ctx.configs_used:
         F = ctx.facts(cfg)
         sfx = '' if cfg == 'default' else '@' + cfg
-        for fn in (r1, r2, r3, r4, r5):
+        for fn in (r1, r2, r3, r4, r5, r6):
             rule = 'C18.' + fn.__name__.upper()
             ctx.guarded(rule, 'evaluate' + sfx, lambda: fn(ctx, F, rule, sfx))
 
@@ -595,3 +598,32 @@ def r5(ctx, F, rule, sfx):
     vt = F.adt_by_path.get('voronoi::convex_cell::Vertex')
     dty = [f['ty'] for f in vt['variants'][0]['fields'] if f['name'] == 'dual'] if vt else []
     ctx.check(rule, 'three-planes-per-vertex' + sfx, dty == ['[usize; 3]'], dty, 'Vertex.dual: [usize; 3]', None, key_extra='dual-type')
+
+
+def r6(ctx, F, rule, sfx):
+    scope = [b for b in F.bodies if b['path'].startswith('simple_cycle::') or strip_generics(b['path']).endswith(('ConvexCell::clip_by_plane', 'ConvexCell::compute_boundary'))
+             or any(strip_generics(b['path']).startswith(strip_generics(o) + '::{closure') for o in ('voronoi::convex_cell::ConvexCell::clip_by_plane', 'voronoi::convex_cell::ConvexCell::compute_boundary'))]
+    scope = [b for b in scope if '::tests::' not in b['path']]
+    if len(scope) < 5:
+        raise AnalysisIncomplete('cycle / clip bodies found: %d' % len(scope))
+    n = nbad = 0
+    for b in scope:
+        for bl in b['blocks']:
+            if bl.get('cleanup'):
+                continue
+            for st in bl['stmts']:
+                if st['k'] == 'assign' and st['rv']['k'] == 'binop' and st['rv']['op'].startswith(('Shl', 'Shr')):
+                    n += 1
+                    if st['rv']['r'].get('k') != 'const':
+                        nbad += 1
+                        ctx.bad(rule, 'shift-by-run-time-index:%s%s' % (strip_generics(b['path']).split('::')[-1], sfx), '%s of a %s by a run-time amount' % (st['rv']['op'], st['rv'].get('lty')),
+                                'membership / bookkeeping per plane in growable storage (Vec), never one bit per plane in a machine word', where(b, st.get('line')), key_extra='shift:' + strip_generics(b['path']))
+    # fixed-size arrays among the fields of the cycle
+    a = F.adt('simple_cycle::SimpleCycle', required=False)
+    fixed = []
+    if a is not None:
+        for f in a['variants'][0]['fields']:
+            if re.match(r'^\[.*; \d+\]$', f['ty'].strip()) or f['ty'].strip() in ('u64', 'u128', 'u32') and f['name'] not in ('start', 'len'):
+                fixed.append('%s: %s' % (f['name'], f['ty']))
+    ctx.check(rule, 'cycle-storage-grows-with-the-cell' + sfx, a is not None and not fixed, fixed or 'successor table and counters only', 'no fixed-size array / bit-set field in SimpleCycle', where(scope[0]) if a is None else '%s:%s' % (a['file'], a['line']), key_extra='fields')
+    ctx.check(rule, 'no-shift-by-run-time-index' + sfx, nbad == 0, '%d bodies of the cycle and the clip routine scanned, %d shift operations, %d by a run-time amount' % (len(scope), n, nbad), 'none by a run-time amount', where(scope[0]), key_extra='shift-total')
